@@ -501,7 +501,9 @@ func withOracle(res string, or []string) string {
 	return res + " ; " + strings.Join(or, " ")
 }
 
-func (e *convOutExec) Exec(cmd string, a []string) string {
+func (e *convOutExec) Exec(cmd string, a []string) string { return withDebugVariant(cmd, a, e.exec1) }
+
+func (e *convOutExec) exec1(cmd string, a []string) string {
 	switch cmd {
 	case "eout.msgs":
 		ms := parseOutMsgs(a[1:])
